@@ -1,10 +1,12 @@
 import SC.Proofs.SrcLoops
 import SC.Proofs.FoldFacts
+import SC.Proofs.FoldOrb
+import SC.Proofs.Basic
 /-!
 `strcase.Compare` on the regenerated program text: the byte loop (`for i := 0; i < len(s) && i < len(t); i++`) with its three exits
 (`clamp(len(s)-len(t))`, the `_lower` comparison, the jump to the rune loop), by a loop invariant over interpreter frames.
-For ASCII-only arguments the rune loop is unreachable and the whole function is proved; the rune loop itself
-(`range` iterator, `DecodeRuneInString`, `tables.CaseFold`) is still open at this level.
+and the rune loop (`range` iterator over `s`, `DecodeRuneInString` / the `_lower` shortcut on `t`, `tables.CaseFold`, `clamp`), by a second
+invariant: the whole function, for all byte strings.
 -/
 namespace GoSsa.Str
 open GoSsa Gen.Src Utf8
@@ -31,22 +33,6 @@ theorem lowerLoad (b : UInt8) : Gen.Consts.strLower[b.toNat]?.getD 0 = (lower b)
 
 theorem lowerLen : Gen.Consts.strLower.length = 256 := by decide +kernel
 
-/-- two ASCII bytes: the source's non-ASCII test `(a|b) & 0x80 != 0` fails, and so does the model's -/
-theorem ascii_or_all : (List.range 128).all (fun a => (List.range 128).all fun b =>
-    decide (wrap .u8 ((toU .u8 (wrap .u8 ((toU .u8 (a : Int) ||| toU .u8 (b : Int) : Nat) : Int)) &&& toU .u8 128 : Nat) : Int) = 0) &&
-    ((UInt8.ofNat a ||| UInt8.ofNat b) &&& 0x80 == 0)) = true := by decide +kernel
-
-theorem ascii_or (a b : UInt8) (ha : a < 0x80) (hb : b < 0x80) :
-    wrap .u8 ((toU .u8 (wrap .u8 ((toU .u8 (a.toNat : Int) ||| toU .u8 (b.toNat : Int) : Nat) : Int)) &&& toU .u8 128 : Nat) : Int) = 0 ∧
-    (a ||| b) &&& 0x80 = 0 := by
-  have ha' : a.toNat < 128 := ha
-  have hb' : b.toNat < 128 := hb
-  have h1 := List.all_eq_true.1 ascii_or_all a.toNat (List.mem_range.2 ha')
-  have h2 := List.all_eq_true.1 h1 b.toNat (List.mem_range.2 hb')
-  rw [Utf8.ofNat_toNat_id, Utf8.ofNat_toNat_id] at h2
-  simp only [Bool.and_eq_true, decide_eq_true_eq, beq_iff_eq] at h2
-  exact h2
-
 theorem toNat_int_inj (a b : UInt8) : ((a.toNat : Int) = (b.toNat : Int)) ↔ a = b := by
   constructor
   · intro hh
@@ -57,12 +43,312 @@ theorem toNat_int_inj (a b : UInt8) : ((a.toNat : Int) = (b.toNat : Int)) ↔ a 
 theorem toNat_int_lt (a b : UInt8) : ((a.toNat : Int) < (b.toNat : Int)) ↔ a < b := by
   rw [UInt8.lt_iff_toNat_lt]; omega
 
-set_option maxHeartbeats 1000000 in
-theorem cmp_loop (s t : Bytes) (r0 o0 r1 o1 : Nat) (h : Heap) (hls : s.length < 4611686018427387904) (hlt : t.length < 4611686018427387904)
-    (hs : ∀ b ∈ s, b < 0x80) (ht : ∀ b ∈ t, b < 0x80) :
+theorem toU_u8_byte (a : UInt8) : toU .u8 (a.toNat : Int) = a.toNat := by
+  unfold toU bits
+  have := a.toNat_lt
+  have e : ((2 ^ 8 : Nat) : Int) = 256 := by decide
+  rw [e]; omega
+
+theorem orand_byte_all : (List.range 256).all (fun n =>
+    decide (wrap .u8 ((toU .u8 (wrap .u8 ((n : Nat) : Int)) &&& toU .u8 128 : Nat) : Int) = 0) == ((UInt8.ofNat n) &&& 0x80 == 0)) = true := by
+  decide +kernel
+
+/-- the source's test `(a|b) & 0x80 != 0` against the model's, for all pairs of bytes -/
+theorem orand_bridge (a b : UInt8) :
+    wrap .u8 ((toU .u8 (wrap .u8 ((toU .u8 (a.toNat : Int) ||| toU .u8 (b.toNat : Int) : Nat) : Int)) &&& toU .u8 128 : Nat) : Int) = 0 ↔
+      (a ||| b) &&& 0x80 = 0 := by
+  rw [toU_u8_byte, toU_u8_byte, ← UInt8.toNat_or]
+  have h := List.all_eq_true.1 orand_byte_all (a ||| b).toNat (List.mem_range.2 (a ||| b).toNat_lt)
+  rw [Utf8.ofNat_toNat_id] at h
+  have h2 := eq_of_beq h
+  constructor
+  · intro hh
+    rw [hh] at h2
+    simpa using h2.symm
+  · intro hh
+    rw [hh] at h2
+    simpa using h2
+
+theorem run_call_unfold (p : Prog) (byt : Bool) (fuel : Nat) (fn : Fn) (env : Array (List Val)) (cur d : Nat) (f : String) (args : List Opd)
+    (rest : List Instr) (term : Term) (h : Heap) :
+    run p byt (fuel + 1) ⟨fn, env, cur, .call d f args :: rest, term⟩ h =
+      match builtin byt f (args.map (Frame.val ⟨fn, env, cur, .call d f args :: rest, term⟩)) h with
+      | some (.ok vs h') => run p byt fuel { (Frame.setL ⟨fn, env, cur, .call d f args :: rest, term⟩ d vs) with code := rest } h'
+      | some e => e
+      | none =>
+        match p.find? (fun fn => fn.name == f) with
+        | none => .stuck ("no such function: " ++ f)
+        | some g =>
+          match run p byt fuel (Frame.entry g (args.map (Frame.val ⟨fn, env, cur, .call d f args :: rest, term⟩))) h with
+          | .ok vs h' => run p byt fuel { (Frame.setL ⟨fn, env, cur, .call d f args :: rest, term⟩ d vs) with code := rest } h'
+          | e => e := by
+  rfl
+
+theorem bi_DecodeRuneInString (b : Bytes) (r o : Nat) (h : Heap) :
+    builtin false "unicode/utf8.DecodeRuneInString" [.str b r o] h = some (.ok [.int (decodeRune b).1, .int (decodeRune b).2] h) := rfl
+theorem bi_CaseFold (i : Int) (h : Heap) :
+    builtin false "tables.CaseFold" [.int i] h =
+      some (.ok [.int (if Fold.caseFold (toU32 i) = toU32 i then i else (Fold.caseFold (toU32 i) : Int))] h) := rfl
+theorem bi_IndexNonASCII (b : Bytes) (r o : Nat) (h : Heap) :
+    builtin false "bytealg.IndexNonASCII" [.str b r o] h = some (.ok [.int (A.kIndexNonASCII b)] h) := rfl
+
+theorem wrap_i32_small (v : Int) (h1 : -2147483648 ≤ v) (h2 : v < 2147483648) : wrap .i32 v = v := by
+  unfold wrap toU bits signed
+  simp only [Bool.true_and]
+  have e : ((2 ^ 32 : Nat) : Int) = 4294967296 := by decide
+  have e2 : (2 ^ (32 - 1) : Nat) = 2147483648 := by decide
+  rw [e, e2]
+  split <;> rename_i hh <;> simp at hh <;> omega
+
+theorem and_le_mask (x m : Nat) : x &&& m ≤ m := Nat.and_le_right
+
+theorem decodeRune_rune_lt (s : Bytes) : (decodeRune s).1 < 0x200000 := by
+  unfold decodeRune
+  split
+  · decide
+  · rename_i b0 rest
+    have hb0 := b0.toNat_lt
+    split
+    · show b0.toNat < _; omega
+    split
+    · decide
+    split
+    · split
+      · split
+        · show _ ||| _ < _
+          have h1 : (b0.toNat &&& 0x1F) ≤ 0x1F := Nat.and_le_right
+          have h2 : ((b0.toNat &&& 0x1F) <<< 6) < 2 ^ 21 := by rw [Nat.shiftLeft_eq]; omega
+          rename_i b1 _ _
+          have h3 : (b1.toNat &&& 0x3F) < 2 ^ 21 := by have := @Nat.and_le_right b1.toNat 0x3F; omega
+          exact Nat.or_lt_two_pow h2 h3
+        · decide
+      · decide
+    split
+    · split
+      · split
+        · rename_i b1 b2 _ _
+          have h1 : ((b0.toNat &&& 0x0F) <<< 12) < 2 ^ 21 := by
+            have := @Nat.and_le_right b0.toNat 0x0F; rw [Nat.shiftLeft_eq]; omega
+          have h2 : ((b1.toNat &&& 0x3F) <<< 6) < 2 ^ 21 := by
+            have := @Nat.and_le_right b1.toNat 0x3F; rw [Nat.shiftLeft_eq]; omega
+          have h3 : (b2.toNat &&& 0x3F) < 2 ^ 21 := by have := @Nat.and_le_right b2.toNat 0x3F; omega
+          exact Nat.or_lt_two_pow (Nat.or_lt_two_pow h1 h2) h3
+        · decide
+      · decide
+    split
+    · split
+      · split
+        · rename_i b1 b2 b3 _ _
+          have h0 : ((b0.toNat &&& 0x07) <<< 18) < 2 ^ 21 := by
+            have := @Nat.and_le_right b0.toNat 0x07; rw [Nat.shiftLeft_eq]; omega
+          have h1 : ((b1.toNat &&& 0x3F) <<< 12) < 2 ^ 21 := by
+            have := @Nat.and_le_right b1.toNat 0x3F; rw [Nat.shiftLeft_eq]; omega
+          have h2 : ((b2.toNat &&& 0x3F) <<< 6) < 2 ^ 21 := by
+            have := @Nat.and_le_right b2.toNat 0x3F; rw [Nat.shiftLeft_eq]; omega
+          have h3 : (b3.toNat &&& 0x3F) < 2 ^ 21 := by have := @Nat.and_le_right b3.toNat 0x3F; omega
+          exact Nat.or_lt_two_pow (Nat.or_lt_two_pow (Nat.or_lt_two_pow h0 h1) h2) h3
+        · decide
+      · decide
+    · decide
+
+def cfValsOK : Bool := Gen.T121.cfTree.toList.all fun e => e.2.2 < 0x200000
+theorem cfValsOK_true : cfValsOK = true := by decide +kernel
+
+theorem caseFold_lt (r : Nat) (h : r < 0x200000) : Fold.caseFold r < 0x200000 := by
+  by_cases hr : Fold.caseFold r = r
+  · rw [hr]; exact h
+  · unfold Fold.caseFold at hr ⊢
+    rw [forceNat_eq] at hr ⊢
+    have hm := Fold.lookupOr_ne Gen.T121.cfTree (Fold.hashCF r) r hr
+    have := List.all_eq_true.mp cfValsOK_true _ hm
+    simpa using this
+
+theorem toU32_nat (r : Nat) (h : r < 0x200000) : toU32 (r : Int) = r := by
+  unfold toU32; omega
+
+/-- the value `tables.CaseFold(r)` returns in the interpreter, for a rune a decoder produced -/
+theorem caseFold_builtin (r : Nat) (h : r < 0x200000) :
+    (if Fold.caseFold (toU32 (r : Int)) = toU32 (r : Int) then (r : Int) else (Fold.caseFold (toU32 (r : Int)) : Int)) = (Fold.caseFold r : Int) := by
+  rw [toU32_nat r h]
+  split
+  · rename_i e; rw [e]
+  · rfl
+
+section
+variable (fold : Nat → Nat)
+theorem cmpRunes_nil (k : Nat) (t : Bytes) : A.cmpRunes fold k [] t = if t = [] then 0 else -1 := by
+  cases t <;> cases k <;> simp [A.cmpRunes]
+theorem cmpRunes_cons_nil (k : Nat) (s : Bytes) (hs : s ≠ []) : A.cmpRunes fold (k + 1) s [] = 1 := by
+  cases s with
+  | nil => exact absurd rfl hs
+  | cons a s => simp [A.cmpRunes]
+theorem cmpRunes_cons_ascii (k : Nat) (s : Bytes) (hs : s ≠ []) (b : UInt8) (t' : Bytes) (hb : b < 0x80) :
+    A.cmpRunes fold (k + 1) s (b :: t') =
+      if (decodeRune s).1 = (lower b).toNat ∨ fold (decodeRune s).1 = (lower b).toNat then A.cmpRunes fold k (s.drop (decodeRune s).2) t'
+      else Utf8.clamp ((fold (decodeRune s).1 : Int) - ((lower b).toNat : Int)) := by
+  cases s with
+  | nil => exact absurd rfl hs
+  | cons a s => simp [A.cmpRunes, hb]
+theorem cmpRunes_cons_multi (k : Nat) (s : Bytes) (hs : s ≠ []) (b : UInt8) (t' : Bytes) (hb : ¬ b < 0x80) :
+    A.cmpRunes fold (k + 1) s (b :: t') =
+      if (decodeRune s).1 = fold (decodeRune (b :: t')).1 ∨ fold (decodeRune s).1 = fold (decodeRune (b :: t')).1 then
+        A.cmpRunes fold k (s.drop (decodeRune s).2) ((b :: t').drop (decodeRune (b :: t')).2)
+      else Utf8.clamp ((fold (decodeRune s).1 : Int) - (fold (decodeRune (b :: t')).1 : Int)) := by
+  cases s with
+  | nil => exact absurd rfl hs
+  | cons a s => simp [A.cmpRunes, hb]
+end
+
+theorem bi_clamp_none (a h) : builtin false "clamp" a h = none := nb_clamp a h
+
+macro "cmp_run" "[" ds:Lean.Parser.Tactic.simpLemma,* "]" : tactic =>
+  `(tactic| src_run [str_Compare, str_Compare_b12, str_Compare_b13, str_Compare_b14, str_Compare_b15, str_Compare_b16, str_Compare_b17, str_Compare_b18,
+      str_Compare_b19, str_Compare_b20, str_Compare_b21, str_Compare_b22, str_Compare_b23, run_call_unfold, bi_DecodeRuneInString, bi_CaseFold,
+      bi_clamp_none, find_clamp, clamp_run, globalArr, lowerLoad, lowerLen, intOf, $ds,*])
+
+set_option maxHeartbeats 4000000 in
+theorem cmp_runes (sb : Bytes) (h : Heap) (hlb : sb.length < 4611686018427387904) :
+    ∀ (k pos : Nat) (tb : Bytes) (rt ot : Nat) (env : Array (List Val)), sb.length - pos ≤ k → pos ≤ sb.length →
+      tb.length < 4611686018427387904 → env.size = 61 →
+      env.getD 18 [] = [.iter sb pos] → env.getD 31 [] = [.str tb rt ot] →
+      ∀ fuel, 40 * k + 40 ≤ fuel →
+      run P false fuel ⟨str_Compare, env, 12, [.next 32 (.r 18), .extract 33 (.r 32) 0], .cond (.r 33) 13 14⟩ h
+        = .ok [.int (A.cmpRunes Fold.caseFold k (sb.drop pos) tb)] h := by
+  intro k
+  induction k with
+  | zero =>
+    intro pos tb rt ot env hk hpos htl hsz h18 h31 fuel hf
+    simp [hsz] at h18 h31
+    have hpe : pos = sb.length := by omega
+    subst hpe
+    rw [List.drop_length, cmpRunes_nil]
+    obtain ⟨m, rfl⟩ : ∃ m, fuel = m + 20 := ⟨fuel - 20, by omega⟩
+    cases tb with
+    | nil => cmp_run [hsz, h18, h31]
+    | cons b t' =>
+      have hl : ¬ ((t'.length : Int) + 1 = 0) := by omega
+      cmp_run [hsz, h18, h31, hl]
+  | succ k ih =>
+    intro pos tb rt ot env hk hpos htl hsz h18 h31 fuel hf
+    simp [hsz] at h18 h31
+    simp only [str_Compare, str_Compare_b12, str_Compare_b13, str_Compare_b14, str_Compare_b15, str_Compare_b16, str_Compare_b17, str_Compare_b18,
+      str_Compare_b19, str_Compare_b20, str_Compare_b21, str_Compare_b22, str_Compare_b23] at ih
+    by_cases hp : pos < sb.length
+    · have hne : sb.drop pos ≠ [] := by
+        intro e; have := congrArg List.length e; simp at this; omega
+      have hnge : ¬ (sb.length ≤ pos) := by omega
+      have hw1 : 1 ≤ (decodeRune (sb.drop pos)).2 := by
+        rw [List.drop_eq_getElem_cons hp]; exact decodeRune_width_pos _ _
+      have hw2 : (decodeRune (sb.drop pos)).2 ≤ sb.length - pos := by
+        have := decodeRune_width_le (sb.drop pos); simpa using this
+      have hr1 := decodeRune_rune_lt (sb.drop pos)
+      cases tb with
+      | nil =>
+        rw [cmpRunes_cons_nil _ _ _ hne]
+        obtain ⟨m, rfl⟩ : ∃ m, fuel = m + 20 := ⟨fuel - 20, by omega⟩
+        cmp_run [hsz, h18, h31, hp, hnge]
+      | cons b t' =>
+        have hk1 : b.toNat < 256 := b.toNat_lt
+        have hk1' : (b.toNat : Int) < 256 := by omega
+        have hl : ¬ ((t'.length : Int) + 1 = 0) := by omega
+        have hl1 : (1 : Int) ≤ (t'.length : Int) + 1 := by omega
+        have hdd : ∀ n, (sb.drop pos).drop n = sb.drop (pos + n) := fun n => by rw [List.drop_drop]
+        by_cases hb : b < 0x80
+        · have hb' : (b.toNat : Int) < 128 := by have : b.toNat < 128 := hb; omega
+          have hlo : ((lower b).toNat : Int) < 256 := by have := (lower b).toNat_lt; omega
+          have hwl : wrap .i32 ((lower b).toNat : Int) = ((lower b).toNat : Int) := wrap_i32_small _ (by omega) (by omega)
+          rw [cmpRunes_cons_ascii _ _ _ hne _ _ hb, hdd]
+          by_cases e1 : (decodeRune (sb.drop pos)).1 = (lower b).toNat
+          · obtain ⟨m, rfl⟩ : ∃ m, fuel = m + 18 := ⟨fuel - 18, by omega⟩
+            have e1' : ((decodeRune (sb.drop pos)).1 : Int) = ((lower b).toNat : Int) := by rw [e1]
+            cmp_run [hsz, h18, h31, hp, hnge, hl, hl1, hk1, hk1', hb', hwl, e1']
+            rw [ih (pos + (decodeRune (sb.drop pos)).2) t' rt (ot + 1) _ (by omega) (by omega) (by simp at htl; omega) (by simp [hsz]) (by simp [hsz])
+              (by simp [hsz]) _ (by omega)]
+            simp [e1]
+          · have e1' : ¬ (((decodeRune (sb.drop pos)).1 : Int) = ((lower b).toNat : Int)) := by omega
+            have e1s : ¬ ((lower b).toNat = (decodeRune (sb.drop pos)).1) := fun x => e1 x.symm
+            have hcb := caseFold_builtin _ hr1
+            have hcl := caseFold_lt _ hr1
+            rw [toU32_nat _ hr1] at hcb
+            have htu := toU32_nat _ hr1
+            generalize hcf : Fold.caseFold (decodeRune (sb.drop pos)).1 = cf at hcb hcl ⊢
+            by_cases e2 : cf = (lower b).toNat
+            · obtain ⟨m, rfl⟩ : ∃ m, fuel = m + 21 := ⟨fuel - 21, by omega⟩
+              have e2' : ((cf : Nat) : Int) = ((lower b).toNat : Int) := by rw [e2]
+              cmp_run [hsz, h18, h31, hp, hnge, hl, hl1, hk1, hk1', hb', hwl, e1, e1s, e1', htu, hcf, hcb, e2, e2']
+              rw [ih (pos + (decodeRune (sb.drop pos)).2) t' rt (ot + 1) _ (by omega) (by omega) (by simp at htl; omega) (by simp [hsz]) (by simp [hsz])
+                (by simp [hsz]) _ (by omega)]
+            · have e2' : ¬ (((cf : Nat) : Int) = ((lower b).toNat : Int)) := by omega
+              obtain ⟨m, rfl⟩ : ∃ m, fuel = m + 40 := ⟨fuel - 40, by omega⟩
+              have hw1' : wrap .i64 ((cf : Nat) : Int) = ((cf : Nat) : Int) := wrap_i64_small _ (by omega) (by omega)
+              have hw2' : wrap .i64 ((lower b).toNat : Int) = ((lower b).toNat : Int) := wrap_i64_small _ (by omega) (by omega)
+              have hw3' : wrap .i64 (((cf : Nat) : Int) - ((lower b).toNat : Int)) = ((cf : Nat) : Int) - ((lower b).toNat : Int) :=
+                wrap_i64_small _ (by omega) (by omega)
+              cmp_run [hsz, h18, h31, hp, hnge, hl, hl1, hk1, hk1', hb', hwl, e1, e1s, e1', htu, hcf, hcb, e2, e2', hw1', hw2', hw3']
+        · have hb' : ¬ ((b.toNat : Int) < 128) := by
+            intro x; apply hb; show b.toNat < 128; omega
+          have hr2 := decodeRune_rune_lt (b :: t')
+          have hq1 : 1 ≤ (decodeRune (b :: t')).2 := decodeRune_width_pos _ _
+          have hq2 : (decodeRune (b :: t')).2 ≤ t'.length + 1 := by have := decodeRune_width_le (b :: t'); simpa using this
+          have hq2' : ((decodeRune (b :: t')).2 : Int) ≤ (t'.length : Int) + 1 := by omega
+          rw [cmpRunes_cons_multi _ _ _ hne _ _ hb, hdd]
+          have htk : List.take (t'.length + 1 - (decodeRune (b :: t')).2) (List.drop (decodeRune (b :: t')).2 (b :: t')) = List.drop (decodeRune (b :: t')).2 (b :: t') :=
+            List.take_of_length_le (by simp)
+          have htl2 : (List.drop (decodeRune (b :: t')).2 (b :: t')).length < 4611686018427387904 := by simp at htl ⊢; omega
+          have htu1 := toU32_nat _ hr1
+          have htu2 := toU32_nat _ hr2
+          have hcb1 := caseFold_builtin _ hr1
+          have hcl1 := caseFold_lt _ hr1
+          have hcb2 := caseFold_builtin _ hr2
+          have hcl2 := caseFold_lt _ hr2
+          rw [htu1] at hcb1
+          rw [htu2] at hcb2
+          generalize hcf : Fold.caseFold (decodeRune (sb.drop pos)).1 = cf at hcb1 hcl1 ⊢
+          generalize hcq : Fold.caseFold (decodeRune (b :: t')).1 = cq at hcb2 hcl2 ⊢
+          by_cases e1 : (decodeRune (sb.drop pos)).1 = cq
+          · obtain ⟨m, rfl⟩ : ∃ m, fuel = m + 18 := ⟨fuel - 18, by omega⟩
+            have e1' : ((decodeRune (sb.drop pos)).1 : Int) = (cq : Int) := by rw [e1]
+            cmp_run [hsz, h18, h31, hp, hnge, hl, hl1, hk1, hk1', hb', htu1, htu2, hcf, hcq, hcb1, hcb2, e1, e1', hq2', htk]
+            rw [ih (pos + (decodeRune (sb.drop pos)).2) _ rt (ot + (decodeRune (b :: t')).2) _ (by omega) (by omega) htl2 (by simp [hsz]) (by simp [hsz])
+              (by simp [hsz]) _ (by omega)]
+          · have e1' : ¬ (((decodeRune (sb.drop pos)).1 : Int) = (cq : Int)) := by omega
+            have e1s : ¬ (cq = (decodeRune (sb.drop pos)).1) := fun x => e1 x.symm
+            by_cases e2 : cf = cq
+            · obtain ⟨m, rfl⟩ : ∃ m, fuel = m + 21 := ⟨fuel - 21, by omega⟩
+              have e2' : ((cf : Nat) : Int) = (cq : Int) := by rw [e2]
+              cmp_run [hsz, h18, h31, hp, hnge, hl, hl1, hk1, hk1', hb', htu1, htu2, hcf, hcq, hcb1, hcb2, e1, e1s, e1', hq2', htk, e2, e2']
+              rw [ih (pos + (decodeRune (sb.drop pos)).2) _ rt (ot + (decodeRune (b :: t')).2) _ (by omega) (by omega) htl2 (by simp [hsz]) (by simp [hsz])
+                (by simp [hsz]) _ (by omega)]
+            · have e2' : ¬ (((cf : Nat) : Int) = (cq : Int)) := by omega
+              have e2s : ¬ (cq = cf) := fun x => e2 x.symm
+              obtain ⟨m, rfl⟩ : ∃ m, fuel = m + 40 := ⟨fuel - 40, by omega⟩
+              have hw1' : wrap .i64 ((cf : Nat) : Int) = ((cf : Nat) : Int) := wrap_i64_small _ (by omega) (by omega)
+              have hw2' : wrap .i64 ((cq : Nat) : Int) = ((cq : Nat) : Int) := wrap_i64_small _ (by omega) (by omega)
+              have hw3' : wrap .i64 (((cf : Nat) : Int) - ((cq : Nat) : Int)) = ((cf : Nat) : Int) - ((cq : Nat) : Int) :=
+                wrap_i64_small _ (by omega) (by omega)
+              cmp_run [hsz, h18, h31, hp, hnge, hl, hl1, hk1, hk1', hb', htu1, htu2, hcf, hcq, hcb1, hcb2, e1, e1s, e1', hq2', htk, e2, e2s, e2',
+                hw1', hw2', hw3']
+    · have hpe : pos = sb.length := by omega
+      subst hpe
+      rw [List.drop_length, cmpRunes_nil]
+      obtain ⟨m, rfl⟩ : ∃ m, fuel = m + 20 := ⟨fuel - 20, by omega⟩
+      cases tb with
+      | nil => cmp_run [hsz, h18, h31]
+      | cons b t' =>
+        have hl : ¬ ((t'.length : Int) + 1 = 0) := by omega
+        cmp_run [hsz, h18, h31, hl]
+
+macro "cmpl_run" "[" ds:Lean.Parser.Tactic.simpLemma,* "]" : tactic =>
+  `(tactic| src_run [str_Compare, str_Compare_b0, str_Compare_b1, str_Compare_b2, str_Compare_b3, str_Compare_b4, str_Compare_b5, str_Compare_b6,
+      str_Compare_b7, str_Compare_b8, str_Compare_b9, str_Compare_b10, str_Compare_b11, str_Compare_b12, str_Compare_b13, str_Compare_b14,
+      str_Compare_b15, str_Compare_b16, str_Compare_b17, str_Compare_b18, str_Compare_b19, str_Compare_b20, str_Compare_b21, str_Compare_b22,
+      str_Compare_b23, $ds,*])
+
+set_option maxHeartbeats 4000000 in
+theorem cmp_loop (s t : Bytes) (r0 o0 r1 o1 : Nat) (h : Heap) (hls : s.length < 4611686018427387904) (hlt : t.length < 4611686018427387904) :
     ∀ (d i : Nat) (env : Array (List Val)), s.length - i = d → i ≤ s.length → i ≤ t.length → env.size = 61 →
       (env.getD 0 [] = [.str s r0 o0]) → (env.getD 1 [] = [.str t r1 o1]) → (env.getD 11 [] = [.int i]) →
-      ∀ fuel, 30 * d + 40 ≤ fuel →
+      ∀ fuel, 30 * d + 40 * s.length + 120 ≤ fuel →
         run P false fuel ⟨str_Compare, env, 3, [.len 12 (.r 0), .bin 13 .lt .i64 (.r 11) (.r 12)], .cond (.r 13) 4 2⟩ h
         = .ok [.int (A.cmpAscii Fold.caseFold (s.drop i) (t.drop i))] h := by
   intro d
@@ -92,52 +378,70 @@ theorem cmp_loop (s t : Bytes) (r0 o0 r1 o1 : Nat) (h : Heap) (hls : s.length < 
     have hlt1' : (i : Int) < s.length := by omega
     have hds : s.drop i = s[i] :: s.drop (i + 1) := List.drop_eq_getElem_cons hlt1
     simp only [str_Compare, str_Compare_b0, str_Compare_b1, str_Compare_b2, str_Compare_b3, str_Compare_b4, str_Compare_b5, str_Compare_b6,
-      str_Compare_b7, str_Compare_b8, str_Compare_b9, str_Compare_b10, str_Compare_b11] at ih
+      str_Compare_b7, str_Compare_b8, str_Compare_b9, str_Compare_b10, str_Compare_b11, str_Compare_b12, str_Compare_b13, str_Compare_b14,
+      str_Compare_b15, str_Compare_b16, str_Compare_b17, str_Compare_b18, str_Compare_b19, str_Compare_b20, str_Compare_b21, str_Compare_b22,
+      str_Compare_b23] at ih
     by_cases hit2 : i < t.length
     · have hit2' : (i : Int) < t.length := by omega
       have hdt : t.drop i = t[i] :: t.drop (i + 1) := List.drop_eq_getElem_cons hit2
-      have hasc := ascii_or s[i] t[i] (hs _ (List.getElem_mem hlt1)) (ht _ (List.getElem_mem hit2))
       have hw : wrap .i64 ((i : Int) + 1) = (i : Int) + 1 := wrap_i64_small _ (by omega) (by omega)
-      rw [hds, hdt]
-      simp only [A.cmpAscii, hasc.2, ne_eq, not_true_eq_false, if_false]
-      by_cases hab : s[i] = t[i]
-      · obtain ⟨m, rfl⟩ : ∃ m, fuel = m + 16 := ⟨fuel - 16, by omega⟩
-        have hab' := (toNat_int_inj s[i] t[i]).mpr hab
-        have hz := hasc.1
-        rw [hab] at hz
-        simp only [Nat.or_self] at hz
-        src_run [str_Compare, str_Compare_b0, str_Compare_b1, str_Compare_b2, str_Compare_b3, str_Compare_b4, str_Compare_b5, str_Compare_b6,
-          str_Compare_b7, str_Compare_b8, str_Compare_b9, str_Compare_b10, str_Compare_b11, hsz, h0, h1, h11, hlt1, hlt1', hit2, hit2', hw, hz, hab']
-        rw [ih (i + 1) _ (by omega) (by omega) (by omega) (by simp [hsz]) (by simp [hsz, h0]) (by simp [hsz, h1]) (by simp [hsz, hw]) _ (by omega)]
-        simp [hab]
-      · have hab' : ¬ ((s[i].toNat : Int) = t[i].toNat) := fun e => hab ((toNat_int_inj _ _).mp e)
-        by_cases hlo : lower s[i] = lower t[i]
-        · obtain ⟨m, rfl⟩ : ∃ m, fuel = m + 22 := ⟨fuel - 22, by omega⟩
-          have hlo' := (toNat_int_inj (lower s[i]) (lower t[i])).mpr hlo
-          have hk1 : s[i].toNat < 256 := s[i].toNat_lt
-          have hk2 : t[i].toNat < 256 := t[i].toNat_lt
-          have hk1' : (s[i].toNat : Int) < 256 := by omega
-          have hk2' : (t[i].toNat : Int) < 256 := by omega
-          src_run [str_Compare, str_Compare_b0, str_Compare_b1, str_Compare_b2, str_Compare_b3, str_Compare_b4, str_Compare_b5, str_Compare_b6,
-            str_Compare_b7, str_Compare_b8, str_Compare_b9, str_Compare_b10, str_Compare_b11, hsz, h0, h1, h11, hlt1, hlt1', hit2, hit2', hw, hasc.1, hab, hab',
-            globalArr, lowerLoad, lowerLen, hk1, hk2, hk1', hk2', hlo']
+      by_cases hna : (s[i] ||| t[i]) &&& 0x80 = 0
+      · have hasc : wrap .u8 ((toU .u8 (wrap .u8 ((toU .u8 (s[i].toNat : Int) ||| toU .u8 (t[i].toNat : Int) : Nat) : Int)) &&& toU .u8 128 : Nat) : Int) = 0 ∧
+            (s[i] ||| t[i]) &&& 0x80 = 0 := ⟨(orand_bridge _ _).mpr hna, hna⟩
+        rw [hds, hdt]
+        simp only [A.cmpAscii, hasc.2, ne_eq, not_true_eq_false, if_false]
+        by_cases hab : s[i] = t[i]
+        · obtain ⟨m, rfl⟩ : ∃ m, fuel = m + 16 := ⟨fuel - 16, by omega⟩
+          have hab' := (toNat_int_inj s[i] t[i]).mpr hab
+          have hz := hasc.1
+          rw [hab] at hz
+          simp only [Nat.or_self] at hz
+          cmpl_run [hsz, h0, h1, h11, hlt1, hlt1', hit2, hit2', hw, hz, hab']
           rw [ih (i + 1) _ (by omega) (by omega) (by omega) (by simp [hsz]) (by simp [hsz, h0]) (by simp [hsz, h1]) (by simp [hsz, hw]) _ (by omega)]
-          simp [hab, hlo]
-        · have hlo' : ¬ (((lower s[i]).toNat : Int) = (lower t[i]).toNat) := fun e => hlo ((toNat_int_inj _ _).mp e)
-          have hk1 : s[i].toNat < 256 := s[i].toNat_lt
-          have hk2 : t[i].toNat < 256 := t[i].toNat_lt
-          have hk1' : (s[i].toNat : Int) < 256 := by omega
-          have hk2' : (t[i].toNat : Int) < 256 := by omega
-          obtain ⟨m, rfl⟩ : ∃ m, fuel = m + 30 := ⟨fuel - 30, by omega⟩
-          by_cases hl : lower s[i] < lower t[i]
-          · have hl' := (toNat_int_lt _ _).mpr hl
-            src_run [str_Compare, str_Compare_b0, str_Compare_b1, str_Compare_b2, str_Compare_b3, str_Compare_b4, str_Compare_b5, str_Compare_b6,
-              str_Compare_b7, str_Compare_b8, str_Compare_b9, str_Compare_b10, str_Compare_b11, hsz, h0, h1, h11, hlt1, hlt1', hit2, hit2', hw, hasc.1, hab, hab',
-              globalArr, lowerLoad, lowerLen, hk1, hk2, hk1', hk2', hlo, hlo', hl, hl']
-          · have hl' : ¬ (((lower s[i]).toNat : Int) < (lower t[i]).toNat) := fun e => hl ((toNat_int_lt _ _).mp e)
-            src_run [str_Compare, str_Compare_b0, str_Compare_b1, str_Compare_b2, str_Compare_b3, str_Compare_b4, str_Compare_b5, str_Compare_b6,
-              str_Compare_b7, str_Compare_b8, str_Compare_b9, str_Compare_b10, str_Compare_b11, hsz, h0, h1, h11, hlt1, hlt1', hit2, hit2', hw, hasc.1, hab, hab',
-              globalArr, lowerLoad, lowerLen, hk1, hk2, hk1', hk2', hlo, hlo', hl, hl']
+          simp [hab]
+        · have hab' : ¬ ((s[i].toNat : Int) = t[i].toNat) := fun e => hab ((toNat_int_inj _ _).mp e)
+          by_cases hlo : lower s[i] = lower t[i]
+          · obtain ⟨m, rfl⟩ : ∃ m, fuel = m + 22 := ⟨fuel - 22, by omega⟩
+            have hlo' := (toNat_int_inj (lower s[i]) (lower t[i])).mpr hlo
+            have hk1 : s[i].toNat < 256 := s[i].toNat_lt
+            have hk2 : t[i].toNat < 256 := t[i].toNat_lt
+            have hk1' : (s[i].toNat : Int) < 256 := by omega
+            have hk2' : (t[i].toNat : Int) < 256 := by omega
+            cmpl_run [hsz, h0, h1, h11, hlt1, hlt1', hit2, hit2', hw, hasc.1, hab, hab', globalArr, lowerLoad, lowerLen, hk1, hk2, hk1', hk2', hlo']
+            rw [ih (i + 1) _ (by omega) (by omega) (by omega) (by simp [hsz]) (by simp [hsz, h0]) (by simp [hsz, h1]) (by simp [hsz, hw]) _ (by omega)]
+            simp [hab, hlo]
+          · have hlo' : ¬ (((lower s[i]).toNat : Int) = (lower t[i]).toNat) := fun e => hlo ((toNat_int_inj _ _).mp e)
+            have hk1 : s[i].toNat < 256 := s[i].toNat_lt
+            have hk2 : t[i].toNat < 256 := t[i].toNat_lt
+            have hk1' : (s[i].toNat : Int) < 256 := by omega
+            have hk2' : (t[i].toNat : Int) < 256 := by omega
+            obtain ⟨m, rfl⟩ : ∃ m, fuel = m + 30 := ⟨fuel - 30, by omega⟩
+            by_cases hl : lower s[i] < lower t[i]
+            · have hl' := (toNat_int_lt _ _).mpr hl
+              cmpl_run [hsz, h0, h1, h11, hlt1, hlt1', hit2, hit2', hw, hasc.1, hab, hab', globalArr, lowerLoad, lowerLen, hk1, hk2, hk1', hk2', hlo, hlo', hl, hl']
+            · have hl' : ¬ (((lower s[i]).toNat : Int) < (lower t[i]).toNat) := fun e => hl ((toNat_int_lt _ _).mp e)
+              cmpl_run [hsz, h0, h1, h11, hlt1, hlt1', hit2, hit2', hw, hasc.1, hab, hab', globalArr, lowerLoad, lowerLen, hk1, hk2, hk1', hk2', hlo, hlo', hl, hl']
+      · -- a non-ASCII byte: the rune loop on `s[i:]`, `t[i:]`
+        have hg : ¬ (wrap .u8 ((toU .u8 (wrap .u8 ((toU .u8 (s[i].toNat : Int) ||| toU .u8 (t[i].toNat : Int) : Nat) : Int)) &&& toU .u8 128 : Nat) : Int) = 0) :=
+          fun x => hna ((orand_bridge _ _).mp x)
+        have hA : A.cmpAscii Fold.caseFold (s.drop i) (t.drop i) = A.cmpRunes Fold.caseFold (s.drop i).length (s.drop i) (t.drop i) := by
+          rw [hds, hdt]
+          simp only [A.cmpAscii, ne_eq, hna, not_false_eq_true, if_true, List.length_cons]
+        rw [hA]
+        obtain ⟨m, rfl⟩ : ∃ m, fuel = m + 16 := ⟨fuel - 16, by omega⟩
+        have hr := cmp_runes (s.drop i) h (by simp; omega) (s.drop i).length 0 (t.drop i) r1 (o1 + i)
+        simp only [str_Compare, str_Compare_b0, str_Compare_b1, str_Compare_b2, str_Compare_b3, str_Compare_b4, str_Compare_b5, str_Compare_b6,
+          str_Compare_b7, str_Compare_b8, str_Compare_b9, str_Compare_b10, str_Compare_b11, str_Compare_b12, str_Compare_b13, str_Compare_b14,
+          str_Compare_b15, str_Compare_b16, str_Compare_b17, str_Compare_b18, str_Compare_b19, str_Compare_b20, str_Compare_b21, str_Compare_b22,
+          str_Compare_b23, List.drop_zero] at hr
+        have htk1 : List.take (s.length - i) (List.drop i s) = List.drop i s := List.take_of_length_le (by simp)
+        have htk2 : List.take (t.length - i) (List.drop i t) = List.drop i t := List.take_of_length_le (by simp)
+        have hi0 : (0 : Int) ≤ i := by omega
+        have hile : (i : Int) ≤ s.length := by omega
+        have hile2 : (i : Int) ≤ t.length := by omega
+        cmpl_run [hsz, h0, h1, h11, hlt1, hlt1', hit2, hit2', hg, intOf, htk1, htk2, hi0, hile, hile2]
+        rw [hr _ (by simp) (by simp) (by simp; omega) (by simp [hsz]) (by simp [hsz]) (by simp [hsz]) _ (by simp; omega)]
+        simp
     · -- `t` is exhausted first
       have hit3 : t.length = i := by omega
       have hit2' : ¬ ((i : Int) < t.length) := by omega
@@ -149,19 +453,24 @@ theorem cmp_loop (s t : Bytes) (r0 o0 r1 o1 : Nat) (h : Heap) (hls : s.length < 
         rw [hds]; simp [A.cmpAscii]; congr 1; omega
       src_run [str_Compare, str_Compare_b2, str_Compare_b4, hsz, h0, h1, h11, hlt1, hlt1', hit2, hit2', hw, run_call_fn (hb := nb_clamp) (hf := find_clamp), clamp_run, hA]
 
-/-- `strcase.Compare` on ASCII-only arguments: the regenerated program text returns the algorithm model's value -/
-theorem Compare_ascii (s t : Bytes) (r0 o0 r1 o1 : Nat) (h : Heap) (hls : s.length < 4611686018427387904) (hlt : t.length < 4611686018427387904)
-    (hs : ∀ b ∈ s, b < 0x80) (ht : ∀ b ∈ t, b < 0x80) :
+/-- `strcase.Compare`: the regenerated program text returns the algorithm model's value, for all byte strings shorter than 2^62 bytes -/
+theorem Compare (s t : Bytes) (r0 o0 r1 o1 : Nat) (h : Heap) (hls : s.length < 4611686018427387904) (hlt : t.length < 4611686018427387904) :
     Ret P false str_Compare [.str s r0 o0, .str t r1 o1] h [.int (A.Compare (cfg false) s t)] h := by
-  refine ⟨30 * s.length + 41, fun fuel hf => ?_⟩
-  obtain ⟨m, rfl⟩ : ∃ m, fuel = (30 * s.length + 40 + m) + 1 := ⟨fuel - (30 * s.length + 41), by omega⟩
+  refine ⟨70 * s.length + 121, fun fuel hf => ?_⟩
+  obtain ⟨m, rfl⟩ : ∃ m, fuel = (70 * s.length + 120 + m) + 1 := ⟨fuel - (70 * s.length + 121), by omega⟩
   rw [Frame.entry]
-  have hl := cmp_loop s t r0 o0 r1 o1 h hls hlt hs ht s.length 0
+  have hl := cmp_loop s t r0 o0 r1 o1 h hls hlt s.length 0
   simp only [str_Compare, str_Compare_b0, str_Compare_b1, str_Compare_b2, str_Compare_b3, str_Compare_b4, str_Compare_b5, str_Compare_b6,
-      str_Compare_b7, str_Compare_b8, str_Compare_b9, str_Compare_b10, str_Compare_b11] at hl
-  src_run [str_Compare, str_Compare_b0, str_Compare_b1, str_Compare_b2, str_Compare_b3, str_Compare_b4, str_Compare_b5, str_Compare_b6,
-      str_Compare_b7, str_Compare_b8, str_Compare_b9, str_Compare_b10, str_Compare_b11]
+      str_Compare_b7, str_Compare_b8, str_Compare_b9, str_Compare_b10, str_Compare_b11, str_Compare_b12, str_Compare_b13, str_Compare_b14,
+      str_Compare_b15, str_Compare_b16, str_Compare_b17, str_Compare_b18, str_Compare_b19, str_Compare_b20, str_Compare_b21, str_Compare_b22,
+      str_Compare_b23] at hl
+  cmpl_run []
   rw [hl _ (by omega) (by omega) (by omega) (by simp) (by simp) (by simp) (by simp) _ (by omega)]
   rfl
+
+/-- corollary kept under its old name: ASCII-only arguments -/
+theorem Compare_ascii (s t : Bytes) (r0 o0 r1 o1 : Nat) (h : Heap) (hls : s.length < 4611686018427387904) (hlt : t.length < 4611686018427387904)
+    (_hs : ∀ b ∈ s, b < 0x80) (_ht : ∀ b ∈ t, b < 0x80) :
+    Ret P false str_Compare [.str s r0 o0, .str t r1 o1] h [.int (A.Compare (cfg false) s t)] h := Compare s t r0 o0 r1 o1 h hls hlt
 
 end GoSsa.Str
